@@ -476,6 +476,14 @@ pub fn c05(args: &Args, reg: &[TypeEntry], log: &mut Log) {
                     let declared: HashSet<String> = m.decls().map(|d| d.name.clone()).collect();
                     let own: Vec<String> = m.imports().flat_map(|i| i.names.clone()).filter(|n| declared.contains(n)).collect();
                     seq_evals += 1;
+                    // "every declaration exactly once"
+                    if m.decls().count() != declared.len() {
+                        reported = true;
+                        seq_fails += 1;
+                        log.emit(json!({"ev": "fail", "monitor": "C05", "part": "sequential", "kind": "declared-more-than-once", "class": class,
+                            "origin": file, "order": perm.iter().map(|&j| reg[group[j]].id.clone()).collect::<Vec<_>>(),
+                            "what": format!("{:?}", m.decls().map(|d| d.name.clone()).collect::<Vec<_>>()), "got": std::fs::read_to_string(&target).unwrap_or_default()}));
+                    }
                     if !own.is_empty() {
                         reported = true;
                         seq_fails += 1;
